@@ -16,6 +16,7 @@
 -/
 import FcModel.VtkArray
 import FcModel.VtuLayout
+import FcModel.VtkAppendix
 namespace Fc.Spec
 open Fc
 
@@ -79,5 +80,84 @@ def vtuContent (cs : List (Nat × List Nat)) : List (Nat × List (List Nat) × L
 def cellDataContent {α} (cs : List (Nat × List Nat)) (vals : List α) : List (Nat × List α) :=
   (uniqueSorted (cs.map (·.1))).map (fun t =>
     (t, ((cs.zip vals).filter (·.1.1 = t)).map (·.2)))
+
+/-! ### VTP cell layout -/
+
+/-- running end offsets of the rows of one section -/
+def rowOffsetsFrom : List (List Nat) → Nat → List Nat
+  | [], _ => []
+  | r :: rs, acc => (acc + r.length) :: rowOffsetsFrom rs (acc + r.length)
+
+/-- logical sections (cell type id, cells in file order; Verts, Lines, Polys, Strips) → per section
+    the count attribute and the two flat arrays of the file -/
+def vtpArrays (secs : List (Nat × List (List Nat))) : List (Nat × Nat × List Nat × List Nat) :=
+  secs.map (fun s => (s.1, s.2.length, s.2.flatten, rowOffsetsFrom s.2 0))
+
+/-- what the file means: per NON-EMPTY section its cells in file order and their consecutive
+    positions in the cell-data arrays -/
+def vtpContentFrom : List (Nat × List (List Nat)) → Nat → List (Nat × List (List Nat) × List Nat)
+  | [], _ => []
+  | s :: ss, start =>
+    if s.2.length = 0 then vtpContentFrom ss start
+    else (s.1, s.2, (List.range s.2.length).map (start + ·)) :: vtpContentFrom ss (start + s.2.length)
+
+def vtpContent (secs : List (Nat × List (List Nat))) : List (Nat × List (List Nat) × List Nat) :=
+  vtpContentFrom secs 0
+
+/-- cell data per non-empty section: the next `#cells` values, in file order -/
+def vtpCellDataContent {α} : List (Nat × List (List Nat)) → List α → List (Nat × List α)
+  | [], _ => []
+  | s :: ss, vals =>
+    if s.2.length = 0 then vtpCellDataContent ss vals
+    else (s.1, vals.take s.2.length) :: vtpCellDataContent ss (vals.drop s.2.length)
+
+/-! ### raw-appended files: what the fallback parser has to cut apart
+
+  A file with `<AppendedData encoding="raw">` is not well-formed XML.  Its bytes are
+      pre ++ "<AppendedData" ++ a1 ++ "encoding" ++ a2 ++ "\"" ++ enc ++ "\"" ++ a3 ++ ">" ++ ws ++ "_"
+          ++ appendix ++ "</AppendedData>" ++ post
+  (`pre` = the XML document up to the opening tag, `a1` = blank, `a2` = `=`, `ws` = line break, …). -/
+
+structure RawFile where
+  pre : List Nat
+  a1 : List Nat
+  a2 : List Nat
+  enc : List Nat
+  a3 : List Nat
+  ws : List Nat
+  appendix : List Nat
+  post : List Nat
+  deriving Repr
+
+/-- the attribute text between `<AppendedData` and `>` -/
+def RawFile.attrs (f : RawFile) : List Nat := f.a1 ++ encodingKw ++ f.a2 ++ [34] ++ f.enc ++ [34] ++ f.a3
+
+/-- from `<AppendedData` up to and including the `_` that marks the start of the data -/
+def RawFile.mid (f : RawFile) : List Nat := openTag ++ f.attrs ++ [62] ++ f.ws ++ [95]
+
+def RawFile.content (f : RawFile) : List Nat := f.pre ++ f.mid ++ f.appendix ++ closeTag ++ f.post
+
+/-- decidable well-formedness of everything AROUND the appendix, as in a real header:
+    the two tags do not occur in the document before the opening tag, the attribute text contains no
+    `<` `>`, the keyword `encoding` does not occur before the attribute of that name, no `"` between
+    the keyword and the opening quote nor inside the name, only blanks (no `<`, no `_`) between `>`
+    and `_`, no second opening tag behind the closing tag; the opening tag lies within the 100
+    bytes before the data the reader looks at, and the file has at least 100 bytes before the data. -/
+def RawFile.HeadOk (f : RawFile) : Prop :=
+  occ openTag f.pre = false ∧ occ closeTag f.pre = false ∧
+  60 ∉ f.attrs ∧ 62 ∉ f.attrs ∧
+  occ encodingKw (openTag ++ f.a1) = false ∧ 34 ∉ f.a2 ∧ 34 ∉ f.enc ∧
+  60 ∉ f.ws ∧ 95 ∉ f.ws ∧
+  occ openTag f.post = false ∧
+  f.mid.length ≤ 100 ∧ 100 ≤ (f.pre ++ f.mid).length
+
+instance (f : RawFile) : Decidable f.HeadOk := by unfold RawFile.HeadOk; infer_instance
+
+/-- the appendix bytes contain neither of the two byte strings the fallback parser searches for;
+    the NEGATION of this predicate is the class of finding C05-RAWTAG -/
+def RawFile.AppendixOk (f : RawFile) : Prop :=
+  occ openTag f.appendix = false ∧ occ closeTag f.appendix = false
+
+instance (f : RawFile) : Decidable f.AppendixOk := by unfold RawFile.AppendixOk; infer_instance
 
 end Fc.Spec
